@@ -149,8 +149,8 @@ func c16Child(c *mon.Child) {
 
 func init() {
 	Register(&mon.Spec{
-		ID:   "C16",
-		Rule: "case = (generated rule map with every action kind, nested includes, Return, patterns with quotes/backslashes/non-ASCII; input). json.Marshal of the definition, of the rule set and of def.Rules() is unmarshalled into lexer.Rules and built with lexer.New; Symbols() must be equal and the token stream / error offset on the input identical to the original definition's. Non-trivial: map uses >=2 action kinds and the input yields >=2 tokens. Distinct by (rule map, input).",
+		ID:          "C16",
+		Rule:        "case = (generated rule map with every action kind, nested includes, Return, patterns with quotes/backslashes/non-ASCII; input). json.Marshal of the definition, of the rule set and of def.Rules() is unmarshalled into lexer.Rules and built with lexer.New; Symbols() must be equal and the token stream / error offset on the input identical to the original definition's. Non-trivial: map uses >=2 action kinds and the input yields >=2 tokens. Distinct by (rule map, input).",
 		Assumptions: []string{"behavioural equality is judged on the sampled inputs only"},
 		Batches:     func(t string) int { return pick(t, 4, 16) },
 		Floor:       func(t string) int { return pick(t, 300, 5000) },
